@@ -9,9 +9,15 @@ tie, two halves (both run on every check, corpus first):
        real provider vs Coq model (63-bit fingerprint of the complete observation per history, located per step on a
        mismatch)                                                        -> kind='model_differs'
        real provider vs provider laws P1-P5 against a python explicit transitive closure -> kind='impl_violates_spec'
+       (incl. `is_empty() => the view has nothing to serve` on every view of both versions: the answer generated code
+       uses to skip whole rules; family "heavy" = many keys sharing few node values, where size heuristics over the
+       keyed views are furthest off)
   PROG (gen/c11_prog.py): programs with the tagged relation in head and body positions, every subset of columns bound,
        recursive and non-recursive strata, vs the least model of the same program with an ordinary relation and the
        explicit rule tr(x,z) <-- tr(x,y), tr(y,z), computed in Coq by naive_fix               -> 'impl_violates_spec'
+       (family "multi": every reader has >= 3 body clauses or 2 that are not a simple join, i.e. runs under the
+       any-relation-empty shortcut of compile_mir_rule, inside and after the recursive stratum, on inputs with 4-60 keys
+       over 2-3 node values)
 Three defects found by this check were repaired in /repo (known_findings.json, status fixed: 2cd049f pairs (x,x)
 implied by cycles, 0ce9ae6 reverse-map views of the delta version of the ternary form, 72c0385 len_estimate of the
 ternary [1,2] view on an empty relation).  Their minimal witnesses stay in corpus/C11.jsonl and run first; the
@@ -89,13 +95,14 @@ def ds_half(binary, cases):
         evaluations += 1
         st = ds.history_stats(c)
         key = "%s/%s" % (c["suite"], c.get("src", "replay").split("/")[0])
-        d = dist.setdefault(key, dict(histories=0, steps=0, cyclic=0, self_loops=0, multi_round=0, several_keys=0, with_scc_boundary=0))
+        d = dist.setdefault(key, dict(histories=0, steps=0, cyclic=0, self_loops=0, multi_round=0, several_keys=0, sixteen_or_more_keys=0, with_scc_boundary=0))
         d["histories"] += 1
         d["steps"] += len(c["ops"])
         d["cyclic"] += int(st["cyclic"])
         d["self_loops"] += int(st["self_loop"])
         d["multi_round"] += int(st["rounds"] > 1)
         d["several_keys"] += int(st["keys"] > 1)
+        d["sixteen_or_more_keys"] += int(st["keys"] >= 16)
         d["with_scc_boundary"] += int(st["restart"])
         if st["derived"] > 0:
             nontrivial.add(ds.case_line(c) + "/" + c["suite"])
@@ -103,11 +110,11 @@ def ds_half(binary, cases):
         if not ds.agree(isteps, m):
             n_model_diff += 1
             if n_model_diff <= 3:
-                def still(cand):
-                    i2 = ds.run_impl(binary, [cand])[0]
-                    m2 = ds.run_model([cand], tag="c11dss")[0]
-                    return not ds.agree(i2, m2)
-                small = ds.shrink(c, still)
+                def still(cands):
+                    i2 = ds.run_impl(binary, cands)
+                    m2 = ds.run_model(cands, tag="c11dss")
+                    return [not ds.agree(a, b) for a, b in zip(i2, m2)]
+                small = ds.shrink_batch(c, still)
                 i2 = ds.run_impl(binary, [small])[0]
                 where = ds.locate_diff(i2, ds.run_model([small], "steps", "c11dsl")[0]) or (0, "history fingerprints differ")
                 full = ds.run_model([small], "full", "c11dsf")[0]
@@ -132,10 +139,10 @@ def ds_half(binary, cases):
             if klass is None:
                 n_unknown += 1
                 if n_unknown <= 4:
-                    def still_u(cand, law=f0["law"]):
-                        i2 = ds.run_impl(binary, [cand])[0]
-                        return any(f["klass"] is None and f["law"] == law for f in ds.spec_check(cand, i2))
-                    case = ds.shrink(c, still_u)
+                    def still_u(cands, law=f0["law"]):
+                        i2 = ds.run_impl(binary, cands)
+                        return [any(f["klass"] is None and f["law"] == law for f in ds.spec_check(cand, st)) for cand, st in zip(cands, i2)]
+                    case = ds.shrink_batch(c, still_u)
                     i2 = ds.run_impl(binary, [case])[0]
                     fs2 = [f for f in ds.spec_check(case, i2) if f["klass"] is None]
                     if fs2:
@@ -152,10 +159,11 @@ def ds_half(binary, cases):
 
 def prog_half(cases):
     results = []
-    for i in range(0, len(cases), 40):
-        results += cp.run_cases(cases[i:i + 40], tag="c11")
+    for i in range(0, len(cases), 64):       # one crate per 64 programs: every build queues on the lock shared by all checks
+        results += cp.run_cases(cases[i:i + 64], tag="c11")
     mism, counts = [], {}
     shapes, bound_seen = {}, {}
+    under_shortcut = [0]
     nontrivial = set()
     runs = 0
     skipped = sum(1 for r in results if r["skipped"])
@@ -167,6 +175,7 @@ def prog_half(cases):
         for rd in c["meta"].get("readers", []):
             k = "%s%s%s" % ("ternary" if c["meta"].get("ternary") else "binary", json.dumps(rd.get("declared_bound", rd.get("bound"))), "/feedback" if rd.get("feedback") else "")
             bound_seen[k] = bound_seen.get(k, 0) + 1
+            under_shortcut[0] += int(bool(rd.get("shortcut")))
         for k, inp in enumerate(c["inputs"]):
             runs += 1
             if r["spec"] and r["spec"][k] is not None:
@@ -179,7 +188,8 @@ def prog_half(cases):
                 continue
             m["case"] = dict(half="prog", prog=c["prog"], inputs=[m["case"]["input"]] if "input" in m["case"] else c["inputs"], meta=c["meta"], program=r["text"])
             mism.append(m)
-    return dict(mism=mism, counts=counts, runs=runs, shapes=shapes, bound=bound_seen, nontrivial=nontrivial, skipped=skipped, results=results)
+    return dict(mism=mism, counts=counts, runs=runs, shapes=shapes, bound=bound_seen, nontrivial=nontrivial, skipped=skipped, results=results,
+                under_shortcut=under_shortcut[0], heavy_runs=sum(1 for r in results if not r["skipped"] for st in r["case"].get("styles", []) if str(st).startswith("heavy")))
 
 
 def fix_panics(r, mism):
@@ -209,7 +219,7 @@ def tie(tier, seed, replay):
         dcases = dsc + ds.gen_cases(tier, seed, PROP)
         pcases = pc + cp.gen_cases(tier, seed, PROP)
     D = ds_half(binary, dcases) if dcases else dict(mism=[], counts={}, nontrivial=set(), dist={}, evaluations=0, impl=[], model_diffs=0)
-    P = prog_half(pcases) if pcases else dict(mism=[], counts={}, runs=0, shapes={}, bound={}, nontrivial=set(), skipped=0, results=[])
+    P = prog_half(pcases) if pcases else dict(mism=[], counts={}, runs=0, shapes={}, bound={}, nontrivial=set(), skipped=0, results=[], under_shortcut=0, heavy_runs=0)
     samples = []
     for c, i in list(zip(dcases, D["impl"]))[:2]:
         samples.append(dict(history="%s %s" % (c["suite"], ds.case_line(c)), impl_last_step=i[-1] if i else None))
@@ -221,9 +231,10 @@ def tie(tier, seed, replay):
         distinct_nontrivial=len(D["nontrivial"]) + len(P["nontrivial"]),
         rule="an evaluation = one DS history (every step observed: 3 numbers per insertion, every view of delta and total after every merge / SCC boundary) "
              "or one PROG run (program x input, all ordinary relations compared); non-trivial = the closure contains at least one tuple that was not inserted "
-             "(DS: distinct operation sequences %d; PROG: distinct (program, input) %d)" % (len(D["nontrivial"]), len(P["nontrivial"])),
+             "(DS: distinct operation sequences %d; PROG: distinct (program, input) %d); is_empty() of every view is observed after every merge / boundary and held against the closure" % (len(D["nontrivial"]), len(P["nontrivial"])),
         samples=samples,
-        distribution=dict(ds=D["dist"], prog=dict(programs=len(P["results"]) - P["skipped"], runs=P["runs"], recursion_shapes=P["shapes"], bound_columns_of_readers=P["bound"])),
+        distribution=dict(ds=D["dist"], prog=dict(programs=len(P["results"]) - P["skipped"], runs=P["runs"], recursion_shapes=P["shapes"], bound_columns_of_readers=P["bound"],
+                                                      reader_rules_under_the_any_relation_empty_shortcut=P["under_shortcut"], runs_on_key_heavy_inputs=P["heavy_runs"])),
         mismatches=D["mism"] + P["mism"],
         trusted_base=["harness/ds_trrel (Rust): drives TrRelIndCommon / TrRel2IndCommonWrapper through RelIndexMerge, RelFullIndexWrite, ToRelIndex, RelIndexRead, RelIndexReadAll, RelFullIndexRead exactly as generated code does; assembles tuples from (key, value) and folds them into bit masks + counts",
                       "gen/c11_ds.py: decoder, python transitive closure, provider-law checker; 63-bit fingerprint per history for model vs implementation",
@@ -234,6 +245,7 @@ def tie(tier, seed, replay):
         extra=dict(ds_histories=D["evaluations"], ds_model_differs=D["model_diffs"], ds_law_failures_by_class={str(k): v for k, v in D["counts"].items()},
                    prog_runs=P["runs"], prog_mismatches_by_class={str(k): v for k, v in P["counts"].items()}, prog_cases_skipped_oracle_too_slow=P["skipped"],
                    partial=["program level is proved on the engine MODEL (c11_program_binary / c11_program_ternary through Engine/ProvProofsW.prun_plan_correct_w: least model of P ++ [explicit closure rule]); that the generated Rust is that model (code generation, keyed index views chosen by the plan) is carried by the PROG half",
-                            "forward views of the ternary form (full, none, [0], [0,1], [0,2]) are tied, not characterised by theorems; the reverse-map views [1], [2], [1,2] are (c11_ternary_rev_views_exact)"]))
+                            "forward views of the ternary form (full, none, [0], [0,1], [0,2]) are tied, not characterised by theorems; the reverse-map views [1], [2], [1,2] are (c11_ternary_rev_views_exact)",
+                            "is_empty of the views: the model's answers are proved definite (c11_is_empty_definite, c11_is_empty_views_*); that the code gives the model's answers is tied (every history, key-heavy ones included); the shortcut itself (compile_mir_rule) is exercised by the PROG family `multi`"]))
 
 
